@@ -36,7 +36,7 @@ pub fn generic_args_json<'tcx>(tcx: TyCtxt<'tcx>, args: ty::GenericArgsRef<'tcx>
     for a in args.iter() {
         match a.kind() {
             GenericArgKind::Type(t) => v.push(ty_json(tcx, t)),
-            GenericArgKind::Lifetime(_) => {}
+            GenericArgKind::Lifetime(_) => v.push(obj! {"k": J::s("lt")}),
             GenericArgKind::Const(c) => v.push(obj! {"k": J::s("const"), "s": J::s(c.to_string())}),
         }
     }
